@@ -238,22 +238,27 @@ PROPS = {
     "C03": {
         "pkg": "./ipam/", "test": "TestVerif_Ipam", "n_quick": 400, "n_thorough": 12000, "env": {"VERIF_PROP": "C03"},
         "runs": [{"pkg": "./ipam/", "test": "TestVerif_Ipam", "n_quick": 400, "n_thorough": 12000, "env": {"VERIF_PROP": "C03"}},
-                 {"pkg": "./svc/", "test": "TestVerif_Svc", "n_quick": 200, "n_thorough": 6000, "env": {"VERIF_PROP": "C03"}}],
+                 {"pkg": "./svc/", "test": "TestVerif_Svc", "n_quick": 200, "n_thorough": 6000, "env": {"VERIF_PROP": "C03"}},
+                 {"pkg": "./rtflush/", "test": "TestVerif_RtFlush", "n_quick": 300, "n_thorough": 10000, "env": {"VERIF_PROP": "C03"}}],
         "rule": "1/4 binding passes, 1/4 trimming of one interface (releaseUnUsedIP with 0..8 to delete), 1/2 Reconcile histories as for C02 with pod deletions followed or not by the daemon's `deleted` report, "
                 "reports that arrive late or for another uid, NodeRuntime unreadable, controller restarts and pool trimming. Clauses: 301 a binding is kept unless pod gone + report (or no uid) at the time of the pass, "
                 "302 it is dropped when they hold and the pass succeeded, 303 every UnAssign / Detach / Delete call is judged against the owners before the pass and the bindings after it, 304 trimming keeps owners. "
                 "A second harness covers the node agent's side: histories on the real networkService (as C04) in which pods are replaced by a new instance of the same name (new uid) before the DEL of the old "
                 "sandbox arrives; clause 351: the release reaches the interface layer (which reports the teardown to NodeRuntime) under the uid stored with the allocation. "
+                "A third harness drives the node agent's reporting itself (CRDV2.Release, the answer of multiIP, syncNodeRuntime, syncDeletedPods) on histories of 6..30 operations against the fake API server "
+                "(failing Get / Create / Patch, the NodeRuntime object absent, being deleted or removed, the cluster IPAM binding and forgetting uids; the API server's dropping of .status on create is emulated): "
+                "clauses 361 (`deleted` only for a uid whose DEL was processed), 362 (a processed DEL stays recorded until answered or saved), 363 (a successful flush reports everything recorded). "
                 "non-trivial = a bound address whose pod is gone was seen by a pass; distinct = distinct input vectors",
         "trusted": ["as C02"],
         "modelled": ["in the controller histories the daemon's reports are scripted NodeRuntime updates; the daemon's side is checked separately up to the interface layer's Release call (uid attribution, clause 351): "
-                     "the flush to NodeRuntime (pkg/eni/crdv2.go:444-491) and the daemon's re-check of vanished pods (daemon.go:661-715) are not driven",
+                     "the daemon's re-check of vanished pods (daemon.go:661-715) is driven through gcPods only (clause 352); report times have one-second resolution: two statuses stamped within the same second "
+                     "(final status then decided by Go's map order in RuntimeFinalStatus) are not generated",
                      "an address that vanished in the cloud before the pass may leave the record (drift exemption gone_of)"],
         "assumptions": [],
         "level_text": "Theorems: the release pass changes an entry only by clearing its owner, only when the runtime object was readable, the pod is absent and (no uid recorded or final report = deleted); under those "
                       "conditions it does clear it; the binding pass never touches an owned entry; trimming marks only unowned non-primary valid addresses and gives up an interface only when nothing on it is owned. "
                       "Tied as C02; cloud calls are judged on the call log of the real Reconcile.",
-        "level_note": "Trusted: Coq kernel, extraction, driver, harness. Partial: the daemon's reporting discipline (third sentence) is outside the model; handleStatus (which addresses are unassigned) is judged on the call log only.",
+        "level_note": "Trusted: Coq kernel, extraction, driver, harness. The node agent's reporting (third sentence) has its own model (RtModel) and theorems (reported only after a processed DEL, for all histories incl. API failures; nothing recorded is forgotten before it is saved); handleStatus (which addresses are unassigned) is judged on the call log only.",
     },
     "C08": {
         "pkg": "./ipam/", "test": "TestVerif_Ipam", "n_quick": 400, "n_thorough": 12000, "env": {"VERIF_PROP": "C08"},
@@ -996,6 +1001,8 @@ def nt_C02(ins, outs):
 def nt_C03(ins, outs):
     if ins and int(ins[0]) == 9:
         return len(outs) > 10
+    if ins and int(ins[0]) == 8:
+        return 3 in [int(x) for x in ins[2:]]   # at least one flush
     return _ipam_nt(ins, outs)
 
 
@@ -1035,10 +1042,29 @@ def dist_C02(cases):
 
 
 def dist_C03(cases):
-    ipam = [c for c in cases if not (c[1] and int(c[1][0]) == 9)]
+    ipam = [c for c in cases if not (c[1] and int(c[1][0]) in (8, 9))]
     svc = [(cid, ins[1:], outs) for cid, ins, outs in cases if ins and int(ins[0]) == 9]
+    rt = [ins for cid, ins, outs in cases if ins and int(ins[0]) == 8]
     d = _dist_ipam(ipam)
     d["daemon_histories"] = _dist_svc(svc) if svc else {}
+    names = {1: "del_processed", 2: "add_answered", 3: "flush", 4: "cleanup", 5: "ipam_binds", 6: "ipam_forgets", 7: "object_deleting", 8: "object_removed"}
+    ops = {v: 0 for v in names.values()}
+    ops["flush_with_failing_api_call"] = 0
+    for ins in rt:
+        v = [int(x) for x in ins[2:]]
+        i = 0
+        while i < len(v):
+            k = v[i]
+            ops[names.get(k, "del_processed")] = ops.get(names.get(k, "del_processed"), 0) + 1
+            if k in (3, 4):
+                if k == 3 and (v[i + 1] == 0 or v[i + 2] == 0):
+                    ops["flush_with_failing_api_call"] += 1
+                i += 3
+            elif k in (7, 8):
+                i += 1
+            else:
+                i += 2
+    d["teardown_report_histories"] = {"cases": len(rt), "operations": ops}
     return d
 
 
